@@ -69,6 +69,18 @@ func propDefs() map[string]*PropDef {
 		},
 		DesignRef: "DESIGN.md section 5 C01",
 	}
+	travInc := append([]string{`/count`, `/every_child_pushed`, `/protocol/`}, safetyInc...)
+	m["C02"] = &PropDef{
+		ID: "C02",
+		Funcs: append(append(seqFuncsOnly("all$1", travInc), seqFuncsOnly("backward$1", travInc)...),
+			wrapperFuncs([]string{"All", "Backward", "restoreKey"}, safetyInc)...),
+		Floor: 150,
+		Assumptions: []string{
+			"SCOPE: clauses of C02 that one traversal step decides. For the stack-based traversals behind All and Backward (all$1, backward$1): whenever an inner node is expanded the stack grows by exactly the node's number of children - the loop over a node4/node16 covers every occupied slot, the loop over a node48 every byte with a slot index, the loop over a node256 every non-nil slot (every_child_pushed: exit obligation of each inner loop over a ghost copy of the stack height; the counting functions are the ones whose lemmas are proved by induction under C10); every popped leaf is delivered through restoreKey exactly when it is popped; the traversal faults nowhere, writes nothing, and stops calling yield once it returned false. A loop bound that skips a slot or a byte (the usual off-by-one: 255 instead of 256 with a byte-typed variable) fails every_child_pushed",
+			"NOT decided: that the children are pushed in the ORDER that makes the pops ascending/descending (it follows from the loop direction together with the sortedness clause of the class invariants proved under C10, but the per-position statement was not written), and the global statement (complete, duplicate-free, sorted over the whole tree), which needs the ordering part of the tree invariant (rung 2) and a sequence-valued ghost result",
+		},
+		DesignRef: "DESIGN.md section 5 C02, section 12",
+	}
 	m["C03"] = &PropDef{
 		ID:    "C03",
 		Funcs: append(wrapperFuncs([]string{"Range", "restoreKey"}, safetyInc), append(seqFuncsOnly("rangeScan", append([]string{`/within_bounds`}, safetyInc...)), FuncCheck{Fn: "maximum", Layer: "C", Include: safetyInc}, FuncCheck{Fn: "longestCommonPrefix", Layer: "C", Include: safetyInc})...),
@@ -83,7 +95,7 @@ func propDefs() map[string]*PropDef {
 	}
 	m["C04"] = &PropDef{
 		ID: "C04",
-		Funcs: append(wrapperFuncs([]string{"Prefix", "All", "restoreKey"}, safetyInc), append(seqFuncsOnly("lowestCommonParent", safetyInc), append(seqFuncsOnly("filter$1", append([]string{`/only_matching`}, safetyInc...)),
+		Funcs: append(wrapperFuncs([]string{"Prefix", "All", "restoreKey"}, safetyInc), append(seqFuncsOnly("lowestCommonParent", safetyInc), append(seqFuncsOnly("filter$1", append([]string{`/only_matching`, `/count`, `/every_child_pushed`}, safetyInc...)),
 			FuncCheck{Fn: "(*alphaSortedTree[K,V]).Prefix$1", Layer: "C"}, FuncCheck{Fn: "(*collationSortedTree[K,V]).Prefix$1", Layer: "C"})...)...),
 		Floor: 150,
 		Assumptions: []string{
@@ -96,7 +108,8 @@ func propDefs() map[string]*PropDef {
 	m["C05"] = &PropDef{
 		ID: "C05",
 		Funcs: append(append(wrapperFuncs([]string{"Minimum", "Maximum", "restoreKey", "TopK", "BottomK"}, safetyInc),
-			FuncCheck{Fn: "minimum", Layer: "C"}, FuncCheck{Fn: "maximum", Layer: "C"}), boundedSeqFuncs(nil)...),
+			FuncCheck{Fn: "minimum", Layer: "C"}, FuncCheck{Fn: "maximum", Layer: "C"}), append(boundedSeqFuncs(nil),
+			append(seqFuncsOnly("all$1", []string{`/count`, `/every_child_pushed`}), seqFuncsOnly("backward$1", []string{`/count`, `/every_child_pushed`})...)...)...),
 		Static: func(p *Program) []*Obligation { return reiterableObligations(p, []string{"topK$1", "bottomK$1"}) },
 		Floor:  250,
 		Assumptions: []string{
